@@ -545,10 +545,27 @@ def specKey (s : Bytes) : Option Key :=
   | c :: rest => if c = 107 ∨ c = 111 ∨ c = 114 ∨ c = 120 then some rest else none   -- k o r x
   | [] => none
 
+/-- tie G: `verifyAuthorizedKeys` as translated from the working tree on this run, on the file rendered as newline-terminated
+    spec lines, with a `ParseAuthorizedKey` that skips to the first key line (the contract the harness checks per line) -/
+def c09translatedKeys (lines : List Bytes) (offered : Bytes) : String :=
+  let enc (ls : List Bytes) : Bytes := ls.flatMap (· ++ [NL])
+  let parse : Go.GoString → Go.GoString × Go.GoString × List Go.GoString × Go.GoString × Go.GoErr := fun b =>
+    match ((splitOnByte NL b).dropLast).dropWhile (fun l => (specKey l).isNone) with
+    | [] => ([], [], [], [], some (b!"no key found"))
+    | k :: rest => ((specKey k).getD [], [], [], enc rest, none)
+  let ext : Go.Ext := { parseFloat := fun _ => (0, none), parseAuthorizedKey := parse, fuel := (enc lines).length + lines.length + 2 }
+  match Gen.Keys.verifyAuthorizedKeys ext {} (enc lines) offered with
+  | .ok (_, none) => "accept"
+  | .ok (_, some _) => "reject"
+  | _ => "PANIC"
+
 def opC09Keys : List String → Res
   | [specs, _nl, offered] =>
     let lines := if specs = "-" then [] else (specs.splitOn ",").map str
     let acc := verifyAuthorizedKeys specKey lines (str offered)
+    let gen := c09translatedKeys lines (str offered)
+    if gen ≠ (if acc then "accept" else "reject") ∧ !lines.any (·.contains NL) then
+      { m := "TRANSLATED-KEYCHECK-DIFFERS-FROM-MODEL:" ++ gen, s := if lines.any (fun l => specKey l = some (str offered)) then "accept" else "reject", t := "translated-differs" } else
     let wanted := lines.any (fun l => specKey l = some (str offered))
     let last := lines.getLast?.bind specKey
     { m := if acc then "accept" else "reject", s := if wanted then "accept" else "reject",
